@@ -303,9 +303,13 @@ def rule_member_qual(chk, prog, tier):
 
 
 def run(chk, tier):
+    from props import c01f
     prog = facts.programs()['cproc-qbe']
     chk.guard('C10.a', lambda: c19.rule_exit(chk, prog, tier))
     chk.guard('C10.b', lambda: rule_unsupported(chk, prog, tier))
     chk.guard('C10.c', lambda: rule_inventory(chk, prog, tier))
     chk.guard('C10.d', lambda: rule_members(chk, prog, tier))
     chk.guard('C10.e', lambda: rule_member_qual(chk, prog, tier))
+    chk.guard('C10.f', lambda: c01f.rule_syntax(chk, prog, tier))
+    from props import c07
+    chk.guard('C07.e', lambda: c07.rule_addrconst(chk, prog, tier))
